@@ -281,6 +281,74 @@ func (fr *Frame) invokeIntrinsic(ins ssa.Instruction, c *ssa.CallCommon, recv Va
 	return Val{}, false
 }
 
+// ---------- scalar replacement of non-escaping locals ----------
+// A local whose address never leaves the function (and its directly called/deferred closures) is not part of the
+// shared heap: its leaves are scalar state variables "$L|<frame>|<name>#k". No call or loop havoc can touch them, and
+// stores to them do not disturb the heap families of the same type.
+
+type localRef struct {
+	key   string
+	leaf  int // index of the first leaf addressed
+	typ   types.Type
+}
+
+func leafStart(t types.Type, field int) int {
+	st := underlying(t).(*types.Struct)
+	n := 0
+	for i := 0; i < field; i++ {
+		n += len(layoutOf(st.Field(i).Type()).leaves)
+	}
+	return n
+}
+
+func (fr *Frame) resolveLocal(v ssa.Value) (localRef, bool) {
+	switch x := v.(type) {
+	case *ssa.Alloc:
+		for f := fr; f != nil; f = f.parent {
+			if k, ok := f.localKey[x]; ok {
+				return localRef{key: k, leaf: 0, typ: x.Type().(*types.Pointer).Elem()}, true
+			}
+		}
+	case *ssa.FreeVar:
+		if r, ok := fr.freeLocal[x]; ok {
+			return r, true
+		}
+	case *ssa.FieldAddr:
+		if r, ok := fr.resolveLocal(x.X); ok {
+			pt := x.X.Type().(*types.Pointer).Elem()
+			st := underlying(pt).(*types.Struct)
+			return localRef{key: r.key, leaf: r.leaf + leafStart(pt, x.Field), typ: st.Field(x.Field).Type()}, true
+		}
+	}
+	return localRef{}, false
+}
+
+func (fr *Frame) localLeafKeys(r localRef, elem types.Type) ([]string, []string) {
+	l := layoutOf(elem)
+	keys := make([]string, len(l.leaves))
+	sorts := make([]string, len(l.leaves))
+	for i, lf := range l.leaves {
+		keys[i] = fmt.Sprintf("%s#%d", r.key, r.leaf+i)
+		sorts[i] = lf.Sort
+		ghostSorts[keys[i]] = lf.Sort
+	}
+	return keys, sorts
+}
+
+func (fr *Frame) loadLocal(st *State, r localRef, elem types.Type) Val {
+	keys, sorts := fr.localLeafKeys(r, elem)
+	v := Val{C: make([]string, len(keys))}
+	for i, k := range keys {
+		t, ok := st.v[k]
+		if !ok {
+			t = fr.q.fresh(fr.prefix+"_luninit", sorts[i])
+			st.v[k] = t
+		}
+		v.C[i] = t
+	}
+	return v
+}
+
 // placeOfScalarPtr resolves an address-valued SSA value that points to a scalar struct field.
 func (fr *Frame) placeLeaves(addr ssa.Value, elem types.Type) (fams []string, addrs []string, sorts []string) {
 	p := fr.val(addr).C[0]
@@ -312,6 +380,23 @@ func (fr *Frame) placeLeaves(addr ssa.Value, elem types.Type) (fams []string, ad
 }
 
 func (fr *Frame) loadVia(addr ssa.Value, elem types.Type) Val {
+	return fr.loadViaIn(fr.cur.st, addr, elem)
+}
+
+func (fr *Frame) loadViaIn(st *State, addr ssa.Value, elem types.Type) Val {
+	if r, ok := fr.resolveLocal(addr); ok {
+		return fr.loadLocal(st, r, elem)
+	}
+	fams, addrs, sorts := fr.placeLeaves(addr, elem)
+	v := Val{C: make([]string, len(fams))}
+	for i := range fams {
+		famLeafSort[fams[i]] = sorts[i]
+		v.C[i] = fmt.Sprintf("(select %s %s)", fr.q.get(st, fams[i]), addrs[i])
+	}
+	return v
+}
+
+func (fr *Frame) loadViaOld(addr ssa.Value, elem types.Type) Val {
 	fams, addrs, sorts := fr.placeLeaves(addr, elem)
 	v := Val{C: make([]string, len(fams))}
 	for i := range fams {
@@ -322,6 +407,15 @@ func (fr *Frame) loadVia(addr ssa.Value, elem types.Type) Val {
 }
 
 func (fr *Frame) storeVia(addr ssa.Value, elem types.Type, v Val) {
+	if r, ok := fr.resolveLocal(addr); ok {
+		keys, _ := fr.localLeafKeys(r, elem)
+		for i, k := range keys {
+			if i < len(v.C) {
+				fr.cur.st.v[k] = v.C[i]
+			}
+		}
+		return
+	}
 	fams, addrs, sorts := fr.placeLeaves(addr, elem)
 	st := fr.cur.st
 	for i := range fams {
